@@ -41,6 +41,20 @@ Theorem C19_db_restart_replay_overlap : forall k L1 L2 L3,
      In (s, len) (draws_of k restarted more) -> next_free live k <= s).
 Proof. exact db_restart_replay_overlap. Qed.
 
+(** a snapshot installed into a RUNNING node whose counters lag: every counter the leader has is taken
+    over exactly, so what that node draws afterwards lies at or above everything the leader handed
+    out before the snapshot (no id twice after a leader change that follows a snapshot install) *)
+Theorem C19_db_install_next_free : forall leader follower k, sm_wf str_cmp leader ->
+  next_free (db_install follower (db_snapshot leader)) k =
+  match sm_get str_cmp leader k with Some v => v | None => next_free follower k end.
+Proof. exact db_install_next_free. Qed.
+
+Theorem C19_db_install_continues : forall k leader follower more,
+  sm_wf str_cmp leader -> sm_wf str_cmp follower -> sm_get str_cmp leader k <> None ->
+  (forall r, In r more -> resets k r = false) ->
+  forall s len, In (s, len) (draws_of k (db_install follower (db_snapshot leader)) more) -> next_free leader k <= s.
+Proof. exact db_install_continues. Qed.
+
 (** per-node cache (SeqGroup, repaired apply_range), fed with the ranges the counter hands out
     (each at or above the end of the previous one): the ids one node returns strictly increase
     (never twice, never backwards) and each lies inside a range the node was given *)
